@@ -1,0 +1,27 @@
+//go:build verif
+// +build verif
+
+package host
+
+import "sync/atomic"
+
+// Named pause points for the verification harness: a hook installed with
+// VerifSetPause is called at every point and may park the calling goroutine, so
+// that specific interleavings can be forced and replayed. Compiled only with
+// -tags verif; without the tag verifPause is an empty function.
+
+var verifPauseHook atomic.Value // func(point string, obj interface{})
+
+func verifPause(point string, obj interface{}) {
+	if h, ok := verifPauseHook.Load().(func(string, interface{})); ok && h != nil {
+		h(point, obj)
+	}
+}
+
+// VerifSetPause installs (or with nil removes) the pause hook.
+func VerifSetPause(h func(point string, obj interface{})) {
+	if h == nil {
+		h = func(string, interface{}) {}
+	}
+	verifPauseHook.Store(h)
+}
